@@ -5,6 +5,7 @@ import json
 import os
 import vf
 from checks import targets_common as tc
+from checks import wire_tier as wt
 
 LEVEL = "model_checking"
 LEVEL_TEXT = ("TLC checks Confined on Targets (no request for an excluded or foreign address, at every step, every specification of the abstract universe). "
@@ -36,6 +37,11 @@ def run(ctx):
     vf.validate_runs(ctx, "TargetsTrace", t2, cfg="TargetsTrace_A2", keyfn=tc.target_key, label="abstract specifications with exclusions", timeout=3000)
     # target strings
     parse_strings(ctx, quick)
+    # socket-level tier: a non-IPv4 target makes the real binary exit non-zero without a frame or a connection; exclusions on the wire
+    n3, rej = wt.run_wire(ctx, select=lambda s: s["expect"]["kind"] == "refuse" or "exclude" in s["name"], label="c02w", focus="refuse")
+    wt.report(ctx, "C02", rej)
+    n4, rej = wt.run_wire(ctx, select=lambda s: "exclude" in s["name"], label="c02x", focus="coverage")
+    wt.report(ctx, "C02", rej)
     runs = vf.read_ndjson(trace)
     for r0 in runs[:2]:
         ctx.sample({k: (v if k != "hist" else v[:5]) for k, v in r0.items()})
